@@ -39,7 +39,7 @@ def puppet_scenario(sc):
     if not sc.get("stops", True):
         beh["tstp"] = "ignore"
     if sc.get("child"):
-        beh["child"] = {"for": (sc["dur"] + 50) * u, "hold": [], "on_term": "exit" if ot == "exit" else "ignore"}
+        beh["child"] = {"for": (sc["dur"] + 12) * u, "hold": [], "on_term": "exit" if ot == "exit" else "ignore"}
     tests = {"subject": {"attempts": [beh]}}
     bins = {"alpha::t1": {"tests": tests}}
     if sc.get("bystander"):
@@ -136,6 +136,8 @@ def observe(sc, res):
          "nextest_exit_t": rel(res["t_end"]), "sent": [(rel(t), s) for t, s in res["sent"]],
          "panic": ("panicked" in res["stderr"]) or res["rc"] == 101, "timed_out": res["timed_out"],
          "pid_alive_after": e2e.alive(pid),
+         "group_alive_after": [r["pid"] for r in log if r.get("test") == "subject" and r.get("ev") in
+                               ("child-start", "start") and e2e.alive(r["pid"])],
          "paused_events": [e["kind"] for e in tap if e.get("kind") in ("RunPaused", "RunContinued")],
          "cancel_events": [(e["kind"], e.get("reason")) for e in tap if e.get("kind") in ("RunBeginCancel", "RunBeginKill")],
          "info": [e for e in tap if e.get("kind") in ("InfoStarted", "InfoResponse", "InfoFinished")]}
@@ -217,6 +219,11 @@ def oracle_common(sc, obs):
         return None
     if obs.get("pid_alive_after"):
         return f"test process {obs['pid']} still alive after nextest exited"
+    # a group whose leader ignored the terminating signal is killed with SIGKILL as a whole
+    if obs.get("group_alive_after") and sc["on_term"] == "ignore" and (
+            obs.get("result") == "timeout" or any(k == "RunBeginCancel" for k, _ in obs.get("cancel_events", []))):
+        return (f"processes {obs['group_alive_after']} of the test's process group are still alive after nextest "
+                f"killed the group and exited")
     return None
 
 
